@@ -19,11 +19,13 @@ GAcceptM(m) == Accept(m) /\ Step("Deliver", m, "accept")
 GIgnore   == \E m \in Msgs : GIgnoreM(m)
 GReject   == \E m \in Msgs : GRejectM(m)
 GAccept   == \E m \in Msgs : GAcceptM(m)
+GLateM(m) == LateMsg(m) /\ Step("Late", m, "late")
+GLate     == \E m \in Msgs : GLateM(m)
 GOther    == OtherSubmitted /\ Step("OtherSubmitted", NoMsg, "left")
 GTimeout  == Timeout /\ Step("Timeout", NoMsg, "timedout")
 GComplete == Complete /\ Step("Complete", NoMsg, sig')
 GSubmit   == Submit /\ Step("Submit", NoMsg, sig)
-GNext == GIgnore \/ GReject \/ GAccept \/ GOther \/ GTimeout \/ GComplete \/ GSubmit
+GNext == GIgnore \/ GReject \/ GAccept \/ GLate \/ GOther \/ GTimeout \/ GComplete \/ GSubmit
 GSpec == GInit /\ [][GNext]_gvars
 
 Terminal == phase \in {"submitted", "left", "timedout"}
